@@ -289,6 +289,7 @@ Inductive label :=
 | DeliverAck (k : nat)     (* ack k reaches the sender: set_delta_tick (and stays: duplication) *)
 | DropAck (k : nat)
 | ForgeAck (v : Z)         (* an arbitrary value appears on the ack channel (a hostile or confused client) *)
+| ResetMgr                 (* the client calls Manager::reset (new map, reconnect) *)
 | Inject (m : Receiver.snapmsg).   (* a message nobody sent reaches the Manager (outside follows_api: the channel only
                                       loses, duplicates and reorders; used to tie the error paths to the code) *)
 
@@ -366,6 +367,9 @@ Definition lstep (sz : osize) (s : link) (l : label) : res unit (link * lobs) :=
            l_accepted := l_accepted s |}, ONone)
   | ForgeAck v =>
     Ok ({| l_sender := sd; l_mgr := l_mgr s; l_chan := l_chan s; l_acks := l_acks s ++ [v];
+           l_accepted := l_accepted s |}, ONone)
+  | ResetMgr =>
+    Ok ({| l_sender := sd; l_mgr := manager_reset (l_mgr s); l_chan := l_chan s; l_acks := l_acks s;
            l_accepted := l_accepted s |}, ONone)
   | Inject m => deliver sz s m
   end.
